@@ -320,7 +320,7 @@ def run(ctx):
     gc.disable()
     try:
         i = -1
-        limit = 2 if getattr(ctx, "factor", 1.0) != 1.0 else None
+        limit = (6 if ctx.tier == "quick" else 24) if getattr(ctx, "factor", 1.0) != 1.0 else None
         for victim in VICTIMS:
             for expr in EXPRS:
                 for op in OPS:
@@ -328,7 +328,7 @@ def run(ctx):
                     if not ctx.mine(i):
                         continue
                     if limit is not None:
-                        if limit == 0 or (i // ctx.nshards) % 5 != ctx.seed % 5:
+                        if limit == 0 or (i // ctx.nshards) % 2 != ctx.seed % 2:
                             continue
                         limit -= 1
                     ref = {}
